@@ -93,6 +93,65 @@ pub fn u8x(line: &str) -> String {
     format!("checked={} emitted={} bad={}", checked, emitted, if bad.is_empty() { "-".to_string() } else { bad.join(",") })
 }
 
+/// utilsx: `<shard> <nshards>` - every scalar value >= U+0020 except U+007F: the library's encode / pop_front / count /
+/// index / common prefix and the decoder round trip against Rust's own char and str
+pub fn utilsx(line: &str) -> String {
+    let p: Vec<u32> = line.split(' ').map(|x| x.parse().unwrap()).collect();
+    let (shard, nshards) = (p[0], p[1]);
+    let neighbours = ["a", "\u{e9}", "\u{20ac}", "\u{1f600}"];
+    let mut checked: u64 = 0;
+    let mut bad: Vec<String> = vec![];
+    for cp in 0x20u32..=0x10FFFF {
+        if cp % nshards != shard || cp == 0x7F {
+            continue;
+        }
+        let c = match char::from_u32(cp) {
+            Some(c) => c,
+            None => continue,
+        };
+        checked += 1;
+        let mut ok = true;
+        let mut b1 = [0u8; 4];
+        let mut b2 = [0u8; 4];
+        let mine = vh::encode_utf8(c, &mut b1).to_string();
+        let std_ = c.encode_utf8(&mut b2).to_string();
+        ok &= mine == std_;
+        for nb in neighbours.iter() {
+            let s = format!("{}{}", std_, nb);
+            ok &= vh::char_pop_front(&s) == Some((c, *nb));
+            let t = format!("{}{}{}", nb, std_, nb);
+            ok &= vh::char_count(&t) == 3;
+            ok &= vh::char_byte_index(&t, 1) == Some(nb.len());
+            ok &= vh::char_byte_index(&t, 2) == Some(nb.len() + std_.len());
+            ok &= vh::char_byte_index(&t, 3).is_none();
+            let u = format!("{}{}{}", nb, std_, std_);
+            ok &= vh::common_prefix_len(&t, &u) == nb.len() + std_.len() || *nb == std_;
+            // a different char with a shared leading byte must not count as common
+            if let Some(d) = char::from_u32(cp ^ 1) {
+                if d != c {
+                    let v = format!("{}{}", nb, d);
+                    let w = format!("{}{}", nb, c);
+                    ok &= vh::common_prefix_len(&v, &w) == nb.len();
+                }
+            }
+        }
+        let mut g = vh::InputGenerator::new();
+        let bytes = std_.as_bytes();
+        for (i, &b) in bytes.iter().enumerate() {
+            let r = g.accept(b);
+            if i + 1 < bytes.len() {
+                ok &= r.is_none();
+            } else {
+                ok &= r == Some(vh::Input::Char(&std_));
+            }
+        }
+        if !ok && bad.len() < 5 {
+            bad.push(format!("{:x}", cp));
+        }
+    }
+    format!("checked={} bad={}", checked, if bad.is_empty() { "-".to_string() } else { bad.join(",") })
+}
+
 /// utils: `cnt HEX` | `idx HEX k` | `pop HEX` | `pfx HEX HEX` | `enc cp` | `trim HEX`
 pub fn utils(line: &str) -> String {
     let p: Vec<&str> = line.split(' ').collect();
@@ -320,7 +379,7 @@ pub fn wr(line: &str) -> String {
     let r = cli.write(|w| {
         for op in &ops {
             let (name, arg) = op.split_once(':').unwrap_or((op, ""));
-            crate::session::writer_op(w, name, arg)?;
+            crate::session::writer_op(w, name, arg, || crate::session::SinkErr)?;
         }
         Ok(())
     });
